@@ -1,4 +1,5 @@
 import SSV.Proofs.Lru
+import SSV.Proofs.LruSpec
 import SSV.Proofs.Dns
 /-
 C17 — The resolver returns only upstream's answers, honours TTLs, degrades safely.
@@ -35,6 +36,41 @@ example : (Lru.run (Lru.new 2 : Lru.Cache Nat Nat) [.set 1 10, .set 2 20, .get 1
 /-- the specification really is a bounded map: a `Get` changes no binding -/
 theorem spec_get_keeps_bindings {K V : Type} [DecidableEq K] (s : Lru.Spec K V) (k k' : K) :
     Lru.Spec.find (Lru.Spec.get s k).1 k' = Lru.Spec.find s k' := find_get s k k'
+
+/-- the specification is the bounded map the property speaks of: after `Set k v` a lookup of `k` finds `v` (any capacity) -/
+theorem spec_set_find_self {K V : Type} [DecidableEq K] (cap : Nat) (s : Spec K V) (k : K) (v : V) :
+    Spec.find (Spec.set cap s k v) k = some v := by
+  unfold Spec.set
+  cases hf : Spec.find s k with
+  | none =>
+    have hn := (sfind_none_iff s k).1 hf
+    have : Spec.find (if s.length = cap then s.tail else s) k = none := by
+      rw [sfind_none_iff]; intro p hp
+      split at hp
+      · exact hn p (List.mem_of_mem_tail hp)
+      · exact hn p hp
+    simp [Spec.add, sfind_append, this, Spec.find]
+  | some w => simp [Spec.touch, sfind_append, sfind_erase_self, Spec.find]
+
+/-- … and a `Set` that does not evict (the key was present, or the cache is not full) changes no other binding -/
+theorem spec_set_find_other {K V : Type} [DecidableEq K] (cap : Nat) (s : Spec K V) (k k' : K) (v : V) (hk : k' ≠ k)
+    (hroom : Spec.find s k ≠ none ∨ s.length ≠ cap) :
+    Spec.find (Spec.set cap s k v) k' = Spec.find s k' := by
+  have hkk : ¬ k = k' := fun e => hk e.symm
+  unfold Spec.set
+  cases hf : Spec.find s k with
+  | none =>
+    have hl : s.length ≠ cap := by
+      rcases hroom with h | h
+      · exact absurd hf h
+      · exact h
+    simp [Spec.add, hl, sfind_append, Spec.find, hkk]
+    cases Spec.find s k' <;> rfl
+  | some w =>
+    simp [Spec.touch, sfind_append, sfind_erase_other s k k' hk, Spec.find, hkk]
+    cases Spec.find s k' <;> rfl
+example : Lru.Spec.find (Lru.Spec.set 2 [(1, 10), (2, 20)] 3 30) 3 = some 30 ∧ Lru.Spec.find (Lru.Spec.set 2 [(1, 10), (2, 20)] 3 30) 1 = none ∧
+    Lru.Spec.find (Lru.Spec.set 3 [(1, 10), (2, 20)] 3 30) 1 = some 10 := by decide
 
 /-- **node_key_stable** (pointer stability, for the `*Entry`-returning API `Gen.entryPointerAPIs` =
 `GetEntry`): starting from a new cache, whatever operations run, a node that exists after a prefix of
@@ -369,3 +405,5 @@ end SSV.C17
 #print axioms SSV.C17.foreign_id_no_effect
 #print axioms SSV.C17.answers_only_conc
 #print axioms SSV.C17.gen_shapes
+#print axioms SSV.C17.spec_set_find_self
+#print axioms SSV.C17.spec_set_find_other
